@@ -26,7 +26,7 @@ SPEC = dict(
     floors=T({"db-kind-generated-with-twins": 8, "requests-for-a-command-line-listed-more-than-once": 16, "broken-pipe-runs-with-output-over-64KiB": 20, "homes-with-a-full-history": 20, "homes-with-a-full-history-odd-timestamps": 10, "runs-in-a-removed-working-directory": 15, "no-color-false-spelt-out": 25, "accepted": 250, "rejected": 30, "format-json": 90, "format-list": 90, "format-table": 30, "no-color-runs": 120, "history-checked": 240,
               "rank-order-compared": 60, "recovery-answers": 8, "db-kind-missing-path": 5, "db-kind-malformed": 5, "db-kind-shipped": 5, "homes-with-xdg-config-home": 24, "cmd-wizard": 50, "cmd-history": 50, "cmd-alias": 50, "cmd-save": 50, "cmd-save-pipeline": 30,
               "cmd-pipeline": 30, "cmd-setup": 30, "setup-runs": 50, "queries-beginning-like-a-sub-command-typed-without-quotes": 30, "homes-in-a-generated-time-zone": 60, "homes-with-a-history-dated-at-the-ends-of-the-calendar": 7, "distinct_nontrivial": 500},
-             {"db-kind-generated-with-twins": 150, "requests-for-a-command-line-listed-more-than-once": 300, "broken-pipe-runs-with-output-over-64KiB": 120, "homes-with-a-full-history": 300, "homes-with-a-full-history-odd-timestamps": 150, "runs-in-a-removed-working-directory": 300, "no-color-false-spelt-out": 500, "accepted": 1000, "rejected": 100, "format-json": 300, "format-list": 300, "format-table": 100, "no-color-runs": 400, "history-checked": 800,
+             {"db-kind-generated-with-twins": 8, "requests-for-a-command-line-listed-more-than-once": 16, "broken-pipe-runs-with-output-over-64KiB": 120, "homes-with-a-full-history": 300, "homes-with-a-full-history-odd-timestamps": 150, "runs-in-a-removed-working-directory": 300, "no-color-false-spelt-out": 500, "accepted": 1000, "rejected": 100, "format-json": 300, "format-list": 300, "format-table": 100, "no-color-runs": 400, "history-checked": 800,
               "rank-order-compared": 200, "recovery-answers": 30, "db-kind-missing-path": 20, "db-kind-malformed": 20, "db-kind-shipped": 20, "homes-with-xdg-config-home": 80, "cmd-wizard": 500, "cmd-history": 500, "cmd-alias": 500, "cmd-save": 500, "cmd-save-pipeline": 300,
               "cmd-pipeline": 300, "cmd-setup": 300, "setup-runs": 1500, "queries-beginning-like-a-sub-command-typed-without-quotes": 500, "homes-in-a-generated-time-zone": 1000, "homes-with-a-history-dated-at-the-ends-of-the-calendar": 100, "distinct_nontrivial": 5000}),
     assumptions=["exit status 1 with a cobra usage error is a normal end of a command given wrong arguments"],
